@@ -265,8 +265,12 @@ def adversarial_array_program(rng):
             calls.append({'op': 'rawcall', 't': 'a', 'sa': ['method', mname], 'raw': array_args(rng, mname, live)})
         elif r < 0.8:
             if rng.random() < 0.6:
-                calls.append({'op': 'rawcall', 't': 'a', 'sa': ['setattr', 'dtype'],
-                              'raw': [['s', rng.choice(STRS + ['uint8', 'int4', 'float16', 'hex2', 'bytes2'])]]})
+                newdt = rng.choice(STRS + ['uint8', 'int4', 'float16', 'hex2', 'bytes2'])
+                calls.append({'op': 'rawcall', 't': 'a', 'sa': ['setattr', 'dtype'], 'raw': [['s', newdt]]})
+                # from here on the items may no longer be numbers (unless the new dtype is plainly numeric, or the
+                # assignment is refused and the old dtype stays): arithmetic is then no longer well-typed use
+                if newdt not in ('uint8', 'int4', 'float16') or name in ('bits', 'hex', 'bin', 'oct', 'bytes', 'bool'):
+                    name = 'bits'
             else:
                 calls.append({'op': 'rawcall', 't': 'a', 'sa': ['setattr', 'data'],
                               'raw': [['x', 'BitArray', _d.rand_bits(rng, rng.choice([0, 3, 8, 16, 17]))]]})
